@@ -363,13 +363,15 @@ Proof. vm_compute. intuition; discriminate. Qed.
 (* ---------- Less ---------- *)
 Definition order_ok (f : flags) : bool := p023 f || p021 f || negb (p016 f).
 
-Ltac cmp :=
-  repeat match goal with
-         | H : context [N.eqb ?a ?b] |- _ => destruct (N.eqb_spec a b)
-         | |- context [N.eqb ?a ?b] => destruct (N.eqb_spec a b)
-         | H : context [N.ltb ?a ?b] |- _ => destruct (N.ltb_spec a b)
-         | |- context [N.ltb ?a ?b] => destruct (N.ltb_spec a b)
-         end; cbn in *; try congruence; try lia.
+Ltac cmp1 :=
+  match goal with
+  | H : context [N.eqb ?a ?b] |- _ => destruct (N.eqb_spec a b)
+  | |- context [N.eqb ?a ?b] => destruct (N.eqb_spec a b)
+  | H : context [N.ltb ?a ?b] |- _ => destruct (N.ltb_spec a b)
+  | |- context [N.ltb ?a ?b] => destruct (N.ltb_spec a b)
+  end.
+Ltac cmp := repeat (cbn [andb orb negb] in *; try discriminate; cmp1);
+            cbn [andb orb negb] in *; try discriminate; try reflexivity; try lia.
 
 Lemma less_asym f a b : less f a b = true -> less f b a = false.
 Proof.
@@ -548,8 +550,8 @@ Lemma pack_ok f st cap s :
 Proof.
   intros Hi H18 Hf. unfold pack. rewrite H18.
   destruct (received s) as [|x r] eqn:E.
-  - simpl. repeat split; try constructor; try (intros ? []); try lia.
-    intros pre t post Hp. destruct pre; discriminate.
+  - simpl. split; [constructor|]. split; [lia|]. split; [intros ? []|]. split; [intros ? []|].
+    split; [constructor|]. intros pre t post Hp. destruct pre; discriminate.
   - rewrite <- E. apply (pack_sorted_ok f st cap s (sort f (received s))); auto.
     + apply sort_perm.
     + apply sort_sorted. unfold order_ok. destruct (p023 f), (p021 f); auto; discriminate.
@@ -566,7 +568,7 @@ Proof.
   intros [Hd Hx] H18. unfold pack. rewrite H18.
   assert (Hsub : subseq (firstn (N.to_nat cap) (received s)) (received s)) by apply subseq_firstn.
   destruct (received s) as [|x r] eqn:E.
-  - simpl. repeat split; try constructor; try (intros ? []); lia.
+  - simpl. split; [constructor|]. split; [lia|]. split; intros ? [].
   - rewrite <- E in *. repeat split.
     + eapply subseq_NoDup; [apply subseq_map; exact Hsub | exact Hd].
     + pose proof (firstn_le_length (N.to_nat cap) (received s)). lia.
@@ -579,7 +581,7 @@ Lemma check_push_is_add lim s tid t :
   fstep lim (fstep lim (mkF s []) (FCheck tid t)) (FPush tid) = mkF (fst (add lim s t)) [].
 Proof.
   unfold fstep at 2. simpl. unfold fstep. simpl. rewrite N.eqb_refl. simpl.
-  unfold add. destruct (existed s (thash t)); simpl; rewrite N.eqb_refl; reflexivity.
+  unfold add. destruct (existed s (thash t)); reflexivity.
 Qed.
 
 Lemma collapse_run lim : forall n sched ops s,
@@ -597,10 +599,14 @@ Proof.
       unfold frun. simpl fold_left at 1.
       change (fold_left (fstep lim) sched (fstep lim (fstep lim (mkF s []) (FCheck tid t)) (FPush tid))
               = mkF (run lim s (OAdd t :: ops')) []).
-      rewrite check_push_is_add. apply IH; auto. simpl in Hl. lia.
+      rewrite check_push_is_add.
+      change (run lim s (OAdd t :: ops')) with (run lim (fst (add lim s t)) ops').
+      apply (IH sched ops'); auto. simpl in Hl. lia.
     + discriminate.
     + simpl in Hc. destruct (collapse sched) as [ops'|] eqn:Ec; [|discriminate]. simpl in Hc.
-      inversion Hc; subst. unfold frun. simpl. apply IH; auto. simpl in Hl. lia.
+      inversion Hc; subst. unfold frun. simpl fold_left.
+      change (run lim s (o :: ops')) with (run lim (step lim s o) ops').
+      apply (IH sched ops'); auto. simpl in Hl. lia.
 Qed.
 
 Lemma interleaved_atomic_inv lim sched ops :
@@ -621,4 +627,64 @@ Lemma race_witness :
 Proof.
   vm_compute. repeat split; auto.
   intros [_ H]. apply (H 5); auto.
+Qed.
+
+(* ---------- packaged statements used by Props.v ---------- *)
+Lemma marked_both s txs ev t : In t txs ->
+  In (thash t) (exec_keys (mark_executed s txs ev)) /\
+  ~ In (thash t) (hashes (received (mark_executed s txs ev))).
+Proof. intros; split; [apply marked_is_executed | apply marked_not_pending]; assumption. Qed.
+
+Lemma unmark_full_refuted_ex : exists lim ops t,
+  let s := run lim empty ops in
+  let s' := step lim s (OUnmark [t] []) in
+  In (thash t) (exec_keys s) /\ ~ In (thash t) (hashes (received s')) /\ ~ In (thash t) (exec_keys s').
+Proof.
+  exists 1, [OAdd (mkTx 7 1 0 0); OMark [mkTx 7 1 0 0] []; OAdd (mkTx 9 2 0 0)], (mkTx 7 1 0 0).
+  exact unmark_full_lost.
+Qed.
+
+Lemma pack_reachable lim ops f st cap :
+  p018 f = true -> p023 f || p021 f = true ->
+  let s := run lim empty ops in
+  let p := pack f st cap s in
+  NoDup (hashes p) /\ N.of_nat (length p) <= cap /\ incl p (received s) /\
+  (forall t, In t p -> ~ In (thash t) (exec_keys s)) /\
+  StronglySorted asc_rel p /\ not_ahead st p.
+Proof. intros. apply pack_ok; auto. apply run_inv. apply inv_empty. Qed.
+
+Lemma sort_total f :
+  order_ok f = true ->
+  (forall a b, less f a b = true -> less f b a = false) /\
+  (forall a b c, less f a b = true -> less f b c = true -> less f a c = true) /\
+  (forall l, Permutation l (sort f l) /\ sorted_by f (sort f l)) /\
+  (forall a b, thash a <> thash b -> less_panics f a b = false).
+Proof.
+  intros Ho. repeat split.
+  - apply less_asym.
+  - intros a b c. apply less_trans. exact Ho.
+  - apply sort_perm.
+  - apply sort_sorted. exact Ho.
+  - apply less_no_panic.
+Qed.
+
+(* in the 016-only regime Less is not transitive *)
+Lemma less_016_not_transitive :
+  let f := mkFlags true true false false in
+  let a := mkTx 5 1 0 0 in let b := mkTx 4 2 0 0 in let c := mkTx 9 1 1 0 in
+  less f a b = true /\ less f b c = false /\ less f c b = true /\ less f a c = true /\
+  less f c a = false /\ less f b a = false /\
+  (exists x y z, less f x y = true /\ less f y z = true /\ less f x z = false).
+Proof.
+  vm_compute. repeat split; auto.
+  exists (mkTx 9 1 1 0), (mkTx 4 2 0 0), (mkTx 3 1 0 0). vm_compute. auto.
+Qed.
+
+Lemma race_refuted_ex : exists lim sched t f st cap,
+  let s := fpool (frun lim (mkF empty []) sched) in
+  In t (received s) /\ In (thash t) (exec_keys s) /\ ~ inv s /\ In t (pack f st cap s).
+Proof.
+  exists 50000, [FCheck 1 (mkTx 5 1 0 0); FOp (OMark [mkTx 5 1 0 0] []); FPush 1], (mkTx 5 1 0 0),
+         (mkFlags true true true true), (fun _ => 1), 200.
+  exact race_witness.
 Qed.
